@@ -19,7 +19,6 @@ from .. import seq_util as u
 
 FAST = {"JAVA_TOOL_OPTIONS": "-Xss64m -XX:TieredStopAtLevel=1"}     # short TLC runs: no C2 compilation (3x less CPU)
 PROP = "C12"
-SIG_CIRC = "ig-circular-protein-name-truncated"
 DEVS = [("F2", "Final"), ("NoLastEdge", "Final"), ("TableTypo", "Final"), ("TermSwap", "Final"), ("NoCircLabel", "Final"),
         ("CircStrip", "Final"), ("TreeHeight", "Final"), ("TreePath", "Final"), ("ConnOff", "Final"), ("ConnWrongInst", "Shape"),
         ("TerDeg0", "Final"), ("LabelSkipFirst", "Final"), ("ReadDropsLabels", "Final")]
@@ -120,30 +119,20 @@ def _gp_chunk(arg):
     return bad, len(cases)
 
 
-def _is_circ_protein(inp):
-    return inp.get("fam") == "file" and inp.get("fmt") == "ig" and inp.get("circ") and inp.get("kind") == "PROTEIN"
-
-
-def _report(ck, label, cases, results, devmap):
+def _report(ck, label, cases, results):
     nbad = 0
     for bad, n in results:
         ck.evaluations += n
         for k, why, obs, text in bad:
             nbad += 1
             case = cases[k]
-            sig = None
-            if devmap is not None and _is_circ_protein(case["inp"]) and isinstance(obs, dict) and "exc" not in obs:
-                dev = devmap.get(key(case["inp"]))
-                # exact classifier: the real graph equals what the I-layer builds with the deviation CircStrip
-                if dev is not None and u.same_graph(obs, dev):
-                    sig = SIG_CIRC
             ck.violation({"kind": "S->I " + label, "inp": case["inp"], "expected": case["g"], "free": case["free"],
                           "hist": case.get("hist", []), "observed": obs, "rendered": text},
-                         sig=sig, what="%s: %s; input %s" % (label, why, (repr(text) if isinstance(text, str) else json.dumps(text))[:400]))
+                         what="%s: %s; input %s" % (label, why, (repr(text) if isinstance(text, str) else json.dumps(text))[:400]))
     return nbad
 
 
-def _replay(ck, label, cases, devmap=None):
+def _replay(ck, label, cases):
     if not cases:
         raise c.MachineryError("%s: TLC exported no cases" % label)
     wd = c.workdir(PROP, "replay_" + label)
@@ -154,12 +143,12 @@ def _replay(ck, label, cases, devmap=None):
         ck.nontrivial.add(key(case["inp"]))
         for ev in case.get("hist", []):
             ck.actions[ev["act"]] = ck.actions.get(ev["act"], 0) + 1
-    return _report(ck, label, cases, res, devmap)
+    return _report(ck, label, cases, res)
 
 
 def _gen_params_subset(ck, cases, nmax, sd, label="gen_params"):
     rng = random.Random(sd)
-    pool = [x for x in cases if not u._seq(x["free"]) and not _is_circ_protein(x["inp"])]
+    pool = [x for x in cases if not u._seq(x["free"])]
     pick = rng.sample(pool, min(nmax, len(pool)))
     wd = c.workdir(PROP, label)
     ff = wd / "universe.ff"
@@ -167,7 +156,7 @@ def _gen_params_subset(ck, cases, nmax, sd, label="gen_params"):
     parts = [(i, ch, str(wd), str(ff)) for i, ch in enumerate(c.chunks(list(enumerate(pick)), c.NPROC * 2))]
     res = c.pmap(_gp_chunk, parts)
     ck.extra["through_" + label] = len(pick)
-    return _report(ck, "gen_params", pick, res, None)
+    return _report(ck, "gen_params", pick, res)
 
 
 # ------------------------------------------------------------------ I -> S
@@ -290,8 +279,8 @@ validate = u.validate
 
 
 def validate_batches(ck, traces, name, size=500):
-    """P-layer validation; what the P-layer rejects is re-validated against the I-layer with the deviations of the known
-    findings (exact classification), anything rejected there as well is a violation"""
+    """P-layer validation in batches; every rejected record is a violation (there is no known finding for C12: F2 and F18
+    are repaired, their return must be reported)"""
     bad = []
     parts = c.chunks(traces, max(1, (len(traces) + size - 1) // size))
     from concurrent.futures import ThreadPoolExecutor
@@ -305,17 +294,8 @@ def validate_batches(ck, traces, name, size=500):
             part[tid - 1]["_rejected"] = True
     if not bad:
         return 0
-    known = []
-    if SIG_CIRC in ck._known:
-        cand = [(tr, m) for tr, m in bad if _is_circ_protein(tr["inp"])]
-        if cand:
-            _, rej2 = validate([tr for tr, _ in cand], name + "_known", cfg="Seq_trace_known.cfg", prop=PROP)
-            known = [cand[i][0] for i in range(len(cand)) if (i + 1) not in rej2]
     nviol = 0
     for tr, matched in bad:
-        if any(tr is kn for kn in known):
-            ck.violation({"kind": "I->S trace", "trace": {"inp": tr["inp"], "events": tr["events"]}}, sig=SIG_CIRC)
-            continue
         nviol += 1
         ev = tr["events"][matched] if matched < len(tr["events"]) else {}
         ck.violation({"kind": "I->S trace", "trace": {"inp": tr["inp"], "events": tr["events"]}, "matched_events": matched},
@@ -369,20 +349,15 @@ def run(tier):
     jobs = [("SeqInputExport", "Seq_fasta_%s.cfg" % t, {"workers": 2, "env": FAST}),
             ("SeqInputExport", "Seq_ig_%s.cfg" % t, {"workers": 3, "env": FAST}),
             ("SeqInputExport", "Seq_plain.cfg", {"workers": 2, "env": FAST}),
-            ("SeqInputExport", "Seq_gen_%s.cfg" % t, {"workers": 6}),
-            ("SeqInputExport", "Seq_igdev_%s.cfg" % t, {"workers": 2, "env": FAST})]
+            ("SeqInputExport", "Seq_gen_%s.cfg" % t, {"workers": 6})]
     jobs += [("SeqInputMC", "Seq_dev_%s.cfg" % d, {"check": False, "workers": 1, "env": FAST}) for d, _ in DEVS]
     res = c.tlc_many(jobs)
-    fasta, ig, plain, gen, igdev = res[:5]
+    fasta, ig, plain, gen = res[:4]
     for r, what in ((fasta, "fasta"), (ig, "ig"), (plain, "txt/-seq/json"), (gen, "gen_seq")):
         ck.model_must_hold(r, "Shape/Final/RoundTrip/Laws/Grows (%s)" % what)
-    ck.add_tlc(igdev)
-    for (d, inv), r in zip(DEVS, res[5:]):
+    for (d, inv), r in zip(DEVS, res[4:]):
         ck.model_must_refute(r, inv, "deviation %s" % d)
     ck.extra["deviations_refuted"] = [d for d, _ in DEVS]
-    devmap = {key(x["inp"]): u.norm_expected(x["ilayer"]) for x in igdev.cases()}
-    if not devmap:
-        raise c.MachineryError("deviation export produced no cases")
     # ---- S->I
     ck.stage("replay: files")
     fcases, icases, pcases, gcases = fasta.cases(), ig.cases(), plain.cases(), gen.cases()
@@ -401,7 +376,7 @@ def run(tier):
         raise c.MachineryError("vacuous instance: %s" % nv)
     ck.extra["instance_corners"] = nv
     _replay(ck, "fasta", fcases)
-    _replay(ck, "ig", icases, devmap)
+    _replay(ck, "ig", icases)
     _replay(ck, "plain", pcases)
     ck.stage("replay: gen_seq")
     _replay(ck, "gen_seq", gcases)
